@@ -8,13 +8,14 @@ character set read from /repo's `command_replacements.go` on this run.
 
 Statement at full strength: every sequence expands to the existing path(s) of what it names, one shell word
 per path, and a sequence that names a non-dependency or has the wrong number of outputs is rejected.
-That is false on the pinned code in five separately classified ways (witness theorems below, each with the
-`…_partial` theorem saying where the clause does hold):
+Repaired in /repo (fix: commits) and now proved in full: the single-output sequences reject a target without
+outputs (`C37_reject_zero`, `C37_single_output_exact`), `$(dir …)` is never empty (`C37_dir_full`: "." for the root
+package), an entry point of a tool is addressed by its absolute path like any other tool output
+(`C37_tool_entry_point_abs`).
+Still false on the code in two separately classified ways (witness theorems below, each with the `…_partial` theorem
+saying where the clause does hold):
   * `quote` only reacts to `|&;()<>`                        (`C37_one_word_*`)
   * a plain file name is never checked against the sources  (`C37_witness_nonsource_file`)
-  * `$(location x)` on a target with no outputs is accepted (`C37_witness_zero_outputs`)
-  * an entry point of a tool is not made absolute           (`C37_witness_tool_entry_point`)
-  * `$(dir //:x)` of a root-package target is empty         (`C37_witness_root_dir`)
 -/
 namespace PlzVerif.Props.C37
 open PlzVerif.Cmd PlzVerif.Generated
@@ -44,7 +45,7 @@ def expectedSeqs : List SeqDef :=
 /-- The guard chain of `checkAndReplaceSequence` the model transcribes (each guard a sorted conjunction). -/
 def expectedGuards : List String :=
   ["!multiple && allOutputs && ep==\"\" && len(dep.Outputs())>1", "!dep.IsBinary && runnable",
-   "len(dep.Outputs())==0 && runnable", "test && tool"]
+   "len(dep.Outputs())==0 && runnable", "test && tool", "!multiple && allOutputs && ep==\"\" && len(dep.Outputs())==0"]
 
 /-- The code the model transcribes beyond the guard chain, as canonical skeletons (parameters by position, locals
     by order of declaration, message texts blanked; compared by SHA-256 prefix, the text itself is in a comment of Generated/C37.lean and
@@ -52,8 +53,8 @@ def expectedGuards : List String :=
     the tool/abs branch, separator, `break` on dir, `TrimRight`, entry points), `fileDestination`, `handleDir`,
     `replaceSequenceLabel`, `replaceSequence`, `splitEntryPoint`, `sourcesOrTools`. -/
 def expectedSkeletons : List (String × String) :=
-  [ ("skelCheckTail", "670196609d9b8bd1d59e51f2"),
-    ("skelFileDestination", "8d73b34cfc21f5571f8e4284"),
+  [ ("skelCheckTail", "5dc4ce40883ca636767d3870"),
+    ("skelFileDestination", "f3d77e2b10c364f21f1480ff"),
     ("skelHandleDir", "ac1e5d5f468350ce2019b35b"),
     ("skelReplaceSequenceLabel", "734076f9ff401d7ac0c39e69"),
     ("skelReplaceSequence", "afd5d348adc4b747c8325249"),
@@ -196,14 +197,33 @@ example : replaceSequences seqs qf [] rejT false (seqText kwLocation (cl% "//oth
 example : checkAndReplace qf [] false ⟨⟨[], ['p'], ['d']⟩, [['a'], ['b']], false, []⟩ [] ['/','/','p',':','d']
     false false false false false false true false = .error .multi := by decide
 
-/-- Witness: the single-output sequences accept a target with *no* outputs and expand to nothing
-    (full strength would demand a rejection for every output count other than one). -/
-theorem C37_witness_zero_outputs :
-    checkAndReplace qf [] false ⟨⟨[], ['p'], ['d']⟩, [], false, []⟩ [] ['/','/','p',':','d']
-      false false false false false false true false = .ok [] := by decide
+/-- `$(location …)`, `$(out_location …)`, `$(exe …)`, `$(out_exe …)` on a target with *no* outputs are rejected
+    (repaired: the guard `… && len(dep.Outputs()) == 0 && ep == ""`). -/
+theorem C37_reject_zero (root : Str) (self : Bool) (dep : TSpec) (inp : Str)
+    (runnable dir outPrefix hash test tool : Bool) (h : dep.outs = []) :
+    ∃ e, checkAndReplace qf root self dep [] inp runnable false dir outPrefix hash test true tool = .error e := by
+  unfold checkAndReplace
+  simp only [h, List.length_nil]
+  cases runnable <;> cases dep.bin <;> cases test <;> cases tool <;> simp
 
-/-- **Partial**: with exactly one output the single-output sequences expand to exactly one path. -/
-theorem C37_single_output_partial (root : Str) (self : Bool) (dep : TSpec) (inp out : Str)
+example : checkAndReplace qf [] false ⟨⟨[], ['p'], ['d']⟩, [], false, []⟩ [] ['/','/','p',':','d']
+    false false false false false false true false = .error .zero := by decide
+
+/-- Full strength of the "wrong number of outputs" clause: a single-output sequence that expands names a target with
+    exactly one output. -/
+theorem C37_single_output_exact (root : Str) (self : Bool) (dep : TSpec) (inp s : Str)
+    (runnable dir outPrefix hash test tool : Bool)
+    (h : checkAndReplace qf root self dep [] inp runnable false dir outPrefix hash test true tool = .ok s) :
+    dep.outs.length = 1 := by
+  rcases hlen : dep.outs with _ | ⟨o, _ | ⟨o2, os⟩⟩
+  · obtain ⟨e, he⟩ := C37_reject_zero root self dep inp runnable dir outPrefix hash test tool hlen
+    rw [he] at h; cases h
+  · rfl
+  · have := C37_reject_multi root self dep inp runnable dir outPrefix hash test tool (by rw [hlen]; simp)
+    rw [this] at h; cases h
+
+/-- With exactly one output the single-output sequences expand to exactly one path. -/
+theorem C37_single_output_path (root : Str) (self : Bool) (dep : TSpec) (inp out : Str)
     (outPrefix test tool : Bool) (h : dep.outs = [out]) :
     seqPaths root self dep inp false outPrefix test true tool =
       [if tool then pathJoin [root, pathJoin [dep.outDir, out]] else fileDestination self dep out false outPrefix test] := by
@@ -222,6 +242,7 @@ theorem C37_expansion_is_render (root : Str) (self : Bool) (dep : TSpec) (inp : 
   split at h; · cases h
   split at h; · cases h
   split at h; · cases h
+  split at h; · cases h
   simp only [Bool.false_eq_true, ↓reduceIte] at h
   cases h; rfl
 
@@ -236,10 +257,11 @@ theorem C37_outs_linked (t : Target) (label : Label) (d : DepDecl) (dep : TSpec)
     (hfind : t.deps.find? (fun x => x.declared = label) = some d) (hdeps : d.deps = dep :: rest)
     (hin : buildInput t label d) (htool : t.isTool dep.label = false)
     (houts : ∀ o ∈ dep.outs, o ≠ [] ∧ hasPrefix o ['/'] = false) :
-    ∀ o ∈ dep.outs, pathJoin [dep.label.pkg, o] ∈ t.tmpPaths := by
+    ∀ o ∈ dep.outs, pathJoin [dep.pkgDir, o] ∈ t.tmpPaths := by
   intro out ho
-  have hmem := fileDestination_mem_paths dep out ho (houts out ho).1 (houts out ho).2
-  have e : fileDestination false dep out false false false = pathJoin [dep.label.pkg, out] := by
+  have _ := houts
+  have hmem := fileDestination_mem_paths dep out ho
+  have e : fileDestination false dep out false false false = pathJoin [dep.pkgDir, out] := by
     simp [fileDestination, handleDir]
   rw [e] at hmem
   have hdf : t.dependenciesFor label = dep :: rest := by simp [Target.dependenciesFor, hfind, hdeps]
@@ -264,18 +286,18 @@ theorem C37_exists_label (root : Str) (t : Target) (label : Label) (d : DepDecl)
   simpa [fileDestination, handleDir] using this
 
 /-- **Exists, `dir`.**  `$(dir //x:y)` expands to the package directory of the dependency, and that directory
-    is where every output of the dependency is linked (`pkg/out` for each `out`). -/
+    is where every output of the dependency is linked (`pkg/out` for each `out`; "." for the root package). -/
 theorem C37_exists_dir (root : Str) (t : Target) (label : Label) (d : DepDecl) (dep : TSpec) (rest : List TSpec)
     (inp : Str) (allOutputs : Bool)
     (hfind : t.deps.find? (fun x => x.declared = label) = some d) (hdeps : d.deps = dep :: rest)
     (hin : buildInput t label d) (htool : t.isTool dep.label = false)
     (houts : ∀ o ∈ dep.outs, o ≠ [] ∧ hasPrefix o ['/'] = false) :
     ∀ p ∈ seqPaths root false dep inp true false false allOutputs false,
-      p = dep.label.pkg ∧ ∀ o ∈ dep.outs, pathJoin [p, o] ∈ t.tmpPaths := by
+      p = dep.pkgDir ∧ ∀ o ∈ dep.outs, pathJoin [p, o] ∈ t.tmpPaths := by
   intro p hp
   simp only [seqPaths, ↓reduceIte, List.mem_map] at hp
   obtain ⟨out, _, rfl⟩ := hp
-  have e : fileDestination false dep out true false false = dep.label.pkg := by simp [fileDestination, handleDir]
+  have e : fileDestination false dep out true false false = dep.pkgDir := by simp [fileDestination, handleDir]
   rw [e]
   exact ⟨rfl, C37_outs_linked t label d dep rest hfind hdeps hin htool houts⟩
 
@@ -292,11 +314,11 @@ theorem C37_locations_end_to_end (root : Str) (t : Target) (inp : Str) (label : 
     (hin : buildInput t label d) (htool : t.isTool dep.label = false) (htool' : t.isTool label = false)
     (houts : ∀ o ∈ dep.outs, o ≠ [] ∧ hasPrefix o ['/'] = false) :
     replaceSequence qf root t inp false true false false false false
-        = .ok (render qf (dep.outs.map fun o => pathJoin [dep.label.pkg, o]))
-    ∧ (∀ p ∈ dep.outs.map (fun o => pathJoin [dep.label.pkg, o]), p ∈ t.tmpPaths)
-    ∧ ((∀ o ∈ dep.outs, goodPath qf (pathJoin [dep.label.pkg, o]) = true) →
-        shellWords (render qf (dep.outs.map fun o => pathJoin [dep.label.pkg, o]))
-          = some (dep.outs.map fun o => pathJoin [dep.label.pkg, o])) := by
+        = .ok (render qf (dep.outs.map fun o => pathJoin [dep.pkgDir, o]))
+    ∧ (∀ p ∈ dep.outs.map (fun o => pathJoin [dep.pkgDir, o]), p ∈ t.tmpPaths)
+    ∧ ((∀ o ∈ dep.outs, goodPath qf (pathJoin [dep.pkgDir, o]) = true) →
+        shellWords (render qf (dep.outs.map fun o => pathJoin [dep.pkgDir, o]))
+          = some (dep.outs.map fun o => pathJoin [dep.pkgDir, o])) := by
   have hdf : t.dependenciesFor label = dep :: rest := by simp [Target.dependenciesFor, hfind, hdeps]
   refine ⟨?_, ?_, ?_⟩
   · unfold replaceSequence
@@ -313,14 +335,27 @@ theorem C37_locations_end_to_end (root : Str) (t : Target) (inp : Str) (label : 
       obtain ⟨o, ho, rfl⟩ := List.mem_map.mp hp
       exact hg o ho)
 
-/-- **Entry points.**  `$(location L|ep)` (no guard firing) expands to the quoted destination of the output the
-    entry point names; in a build command without `out_` that is `pkg/out`. -/
-theorem C37_entry_point (root : Str) (self : Bool) (dep : TSpec) (ep inp out : Str) (multiple dir : Bool) (tool : Bool)
+/-- **Entry points.**  `$(location L|ep)` (no guard firing, `L` not a tool) expands to the quoted destination of the
+    output the entry point names; in a build command without `out_` that is `pkg/out`. -/
+theorem C37_entry_point (root : Str) (self : Bool) (dep : TSpec) (ep inp out : Str) (multiple dir : Bool)
     (hne : ep ≠ []) (hfind : dep.eps.find? (fun e => e.1 = ep) = some (ep, out)) :
-    checkAndReplace qf root self dep ep inp false multiple dir false false false true tool
-      = .ok (quote qf (if dir then dep.label.pkg else pathJoin [dep.label.pkg, out])) := by
+    checkAndReplace qf root self dep ep inp false multiple dir false false false true false
+      = .ok (quote qf (if dir then dep.pkgDir else pathJoin [dep.pkgDir, out])) := by
   unfold checkAndReplace
   simp [hne, hfind, fileDestination, handleDir]
+
+/-- **Entry points of tools** (repaired): like every other tool output they are addressed by the absolute path of
+    the real output, `<root>/plz-out/{bin,gen}/pkg/out` — tools are not linked into the build directory. -/
+theorem C37_tool_entry_point_abs (root : Str) (self : Bool) (dep : TSpec) (ep inp out : Str) (runnable multiple outPrefix : Bool)
+    (hne : ep ≠ []) (hfind : dep.eps.find? (fun e => e.1 = ep) = some (ep, out)) (hb : runnable = true → dep.bin = true)
+    (ho : dep.outs ≠ []) :
+    checkAndReplace qf root self dep ep inp runnable multiple false outPrefix false false true true
+      = .ok (quote qf (pathJoin [root, pathJoin [dep.outDir, out]])) := by
+  unfold checkAndReplace
+  have hl : dep.outs.length ≠ 0 := by intro h; exact ho (List.length_eq_zero_iff.mp h)
+  cases runnable with
+  | false => simp [hne, hfind, handleDir]
+  | true => simp [hne, hfind, handleDir, hb rfl, hl]
 
 /-- **Exists, files.**  In a build command a plain name that is a source file expands to the quoted path
     `prepareSources` links it at. -/
@@ -376,27 +411,25 @@ theorem C37_tool_abs (root : Str) (self : Bool) (dep : TSpec) (inp : Str) (outPr
   simp only [TSpec.fullPaths, List.mem_map]
   exact ⟨out, ho, rfl⟩
 
-/-- Witness: with an entry point the tool branch is skipped; the expansion is the package-relative path,
-    which is neither absolute nor linked into the build directory. -/
-theorem C37_witness_tool_entry_point :
+-- the former witness of `tool-entry-point-not-absolute`: `$(exe //tl:x|m)` on a tool now gives the absolute path
+example :
     let tool : TSpec := ⟨⟨[], ['t','l'], ['x']⟩, [['b','i','n']], true, [(['m'], ['b','i','n'])]⟩
     let t : Target := ⟨⟨⟨[], ['p'], ['t']⟩, [['o']], false, []⟩, [], [⟨tool.label.str, some tool.label⟩], [⟨tool.label, 4, [tool]⟩]⟩
-    replaceSequence qf ['/','r'] t ['/','/','t','l',':','x','|','m'] true false false false false false = .ok ['t','l','/','b','i','n']
-    ∧ replaceSequence qf ['/','r'] t ['/','/','t','l',':','x'] true false false false false false
-        = .ok ['/','r','/','p','l','z','-','o','u','t','/','b','i','n','/','t','l','/','b','i','n']
-    ∧ ['t','l','/','b','i','n'] ∉ t.tmpPaths := by decide
+    replaceSequence qf ['/','r'] t ['/','/','t','l',':','x','|','m'] true false false false false false
+      = .ok (cl% "/r/plz-out/bin/tl/bin") := by decide
 
-/-- Witness: `$(dir …)` of a target in the root package expands to the empty string, not to ".". -/
-theorem C37_witness_root_dir :
+/-- **`$(dir …)` is never empty** (repaired: `PackageDir()`): it is the package directory of the dependency, "." for
+    the root package. -/
+theorem C37_dir_full (root : Str) (dep : TSpec) (inp o : Str) (os : List Str) (allOutputs : Bool)
+    (ho : dep.outs = o :: os) (ha : allOutputs = true) :
+    seqPaths root false dep inp true false false allOutputs false = [dep.pkgDir] ∧ dep.pkgDir ≠ [] := by
+  refine ⟨by simp [seqPaths, ho, ha, fileDestination, handleDir], pkgDir_ne_nil dep⟩
+
+-- the former witness of `dir-of-root-package-is-empty`
+example :
     let dep : TSpec := ⟨⟨[], [], ['x']⟩, [['o']], false, []⟩
     let t : Target := ⟨⟨⟨[], ['p'], ['t']⟩, [['o']], false, []⟩, [], [], [⟨dep.label, 2, [dep]⟩]⟩
-    replaceSequence qf [] t ['/','/',':','x'] false true true false false false = .ok [] := by decide
-
-/-- **Partial**: for a package other than the root, `$(dir …)` is the (non-empty) package name. -/
-theorem C37_dir_partial (root : Str) (dep : TSpec) (inp o : Str) (os : List Str) (allOutputs : Bool)
-    (ho : dep.outs = o :: os) (ha : allOutputs = true) :
-    seqPaths root false dep inp true false false allOutputs false = [dep.label.pkg] := by
-  simp [seqPaths, ho, ha, fileDestination, handleDir]
+    replaceSequence qf [] t ['/','/',':','x'] false true true false false false = .ok ['.'] := by decide
 
 -- non-vacuity of C37_exists_label: a source dependency with two outputs
 example :
